@@ -115,6 +115,9 @@ func (e *Engine) lenOf(x Value, g *Term, pos token.Pos) Value {
 	case SliceV:
 		return v.len
 	case StringV:
+		if v.hasAtom() {
+			return Poison{why: "len of opaque symbolic string"}
+		}
 		var r *Term
 		for i := len(v.alts) - 1; i >= 0; i-- {
 			l := BV(64, uint64(len(v.alts[i].s)))
